@@ -367,27 +367,38 @@ def run_seq(ctx, dom, cfp, seq, PA, PB, zA, zB, fam):
 # --------------------------------------------------------------------------- key walks
 
 
-def key_walk(ctx, c, dom, steps):
+def key_walk(ctx, c, dom, steps, der_ok=True):
     rng = ctx.rng
     n = dom.n
     d = rng.randrange(1, n)
     Q = ecdsa_ref.pubkey(dom, d)
     hf = hashlib.sha256
     sk = ecdsa.SigningKey.from_secret_exponent(d, c, hf)
-    pool = [("sk", sk), ("vk", sk.verifying_key), ("vk", ecdsa.VerifyingKey.from_string(sec1.encode_point(dom, Q, "compressed"), c, hf))]
+    cenc = "compressed" if dom.pbytes() > 1 else "hybrid"     # on a 1-byte field the compressed form has the raw length (ambiguous by construction)
+    pool = [("sk", sk), ("vk", sk.verifying_key), ("vk", ecdsa.VerifyingKey.from_string(sec1.encode_point(dom, Q, cenc), c, hf))]
     msg = b"c19 key history"
     dg = hf(msg).digest()
     e = ecdsa_ref.digest_to_e(dom, dg, True)
-    kk = rfc6979_ref.generate_k(n, d, hf, dg)
-    want_sig = ecdsa_ref.sign(dom, d, kk, e)
+    retry = 0
+    while True:      # first RFC 6979 candidate that gives r != 0 and s != 0 (matters on toy orders)
+        kk = rfc6979_ref.generate_k(n, d, hf, dg, retry)
+        want_sig = ecdsa_ref.sign(dom, d, kk, e)
+        if isinstance(want_sig, tuple):
+            break
+        retry += 1
     good = sigs.ref_encode("string", want_sig[0], want_sig[1], n)
-    badsig = sigs.ref_encode("string", want_sig[0], (want_sig[1] + 1) % n or 1, n)
+    s_bad = next(sb for sb in range(1, n) if not ecdsa_ref.verify(dom, Q, e, want_sig[0], (want_sig[1] + sb) % n))   # s+1 can be n-s (the valid twin) on tiny orders
+    badsig = sigs.ref_encode("string", want_sig[0], (want_sig[1] + s_bad) % n, n)
     hist = []
     swapped = False
     for stepno in range(steps):
         kind, key = pool[rng.randrange(len(pool))]
         vk = key.verifying_key if kind == "sk" else key
-        op = rng.choice(("precompute", "precompute_lazy", "sign", "verify", "verify_bad", "to_string", "to_der", "to_pem", "reload", "pickle", "eq", "mul_point"))
+        op = rng.choice(("precompute", "precompute_lazy", "sign", "verify", "verify_bad", "to_string", "to_der", "to_pem", "reload", "pickle", "eq", "mul_point", "deepcopy"))
+        if not der_ok and op in ("to_der", "to_pem"):
+            op = "pickle"       # DER/PEM name the curve by OID only; a user-defined curve cannot round-trip through them by design
+        if op == "deepcopy":
+            op = "pickle_via_deepcopy"
         hist.append("%s:%s" % (kind, op))
         try:
             bad = None
@@ -436,16 +447,18 @@ def key_walk(ctx, c, dom, steps):
                     if not (k2 == key) or (k2 != key):
                         bad = "public PEM round trip changed"
             elif op == "reload":
-                k2 = ecdsa.VerifyingKey.from_string(vk.to_string(rng.choice(("raw", "compressed", "hybrid"))), c, hf)
+                k2 = ecdsa.VerifyingKey.from_string(vk.to_string(rng.choice(("raw", cenc, "hybrid"))), c, hf)
                 if not (k2 == vk):
                     bad = "reloaded key unequal"
                 elif len(pool) < 8:
                     pool.append(("vk", k2))
-            elif op == "pickle":
-                k2 = pickle.loads(pickle.dumps(key))
+            elif op in ("pickle", "pickle_via_deepcopy"):
+                k2 = pickle.loads(pickle.dumps(key, rng.choice((2, 4, pickle.HIGHEST_PROTOCOL)))) if op == "pickle" else copy.deepcopy(key)
                 ctx.case("pickle", key="key|" + kind)
                 if not (k2 == key) or k2.to_string() != key.to_string():
                     bad = "pickled key differs"
+                elif not (k2.curve == key.curve) or (k2.curve.generator.x(), k2.curve.generator.y(), k2.curve.order) != (dom.G[0], dom.G[1], dom.n):
+                    bad = "pickled key sits on another curve / base point"
                 elif kind == "sk" and k2.sign_deterministic(msg, hashfunc=hf) != good:
                     bad = "pickled signing key signs differently"
                 elif kind == "vk" and k2.verify(good, msg, hashfunc=hf) is not True:
@@ -512,3 +525,17 @@ def run(ctx, name, kind, **kw):
         dom = lib.dom_of(c)
         for _ in range(kw["walks"]):
             key_walk(ctx, c, dom, kw["steps"])
+        # a user-defined Curve on the same field curve with another base point, declared (as copied declarations are) with the
+        # registered OID of the named curve; and a toy curve with an unregistered OID
+        from ecdsa import curves as _c
+        from vf.ref.ecdsa_ref import Domain
+        m = rng.randrange(2, dom.n)
+        G2 = dom.curve.mul(m, dom.G)
+        dom2 = Domain(dom.p, dom.curve.a, dom.curve.b, G2[0], G2[1], dom.n, dom.h, c.name + "_altG")
+        gen2 = PointJacobi(c.curve, G2[0], G2[1], 1, dom.n, generator=True)
+        custom = _c.Curve(c.name + "_altG", c.curve, gen2, c.oid)
+        for _ in range(max(1, kw["walks"] // 2)):
+            key_walk(ctx, custom, dom2, kw["steps"], der_ok=False)
+        ts = sigs.toy_prime_curves(11, 61)
+        tcurve, tdom = sigs.toy_lib_curve(ts[rng.randrange(len(ts))])
+        key_walk(ctx, tcurve, tdom, kw["steps"], der_ok=False)
